@@ -5,4 +5,5 @@ CONSTANTS
   MaxEnv = 9
   MaxInc = 3
   MaxRaise = 1
+  MaxBlock = 1
 CHECK_DEADLOCK FALSE
